@@ -77,6 +77,13 @@ TABLE: list[ClassDef] = [
             FieldDef("nn", "int", "int", "1", init=False, compare=False),
         ],
     ),
+    # a property typed Any that holds a node (or a tuple of nodes) at run time, e.g. a resolved
+    # reference to a declaration elsewhere: a value, not a child
+    ClassDef(
+        "Ref", "Base",
+        [FieldDef("kid", "Base | None", "opt", "None", classes=ANY),
+         FieldDef("target", "Any", "anyref", "None", compare=False)],
+    ),
     # a class body with value-based __eq__ / __hash__ of its own (the library installs its own pair)
     ClassDef(
         "EqLeaf", "Base",
@@ -236,7 +243,7 @@ import abc
 import enum
 from dataclasses import dataclass, field
 from pathlib import Path
-from typing import ClassVar, Literal
+from typing import Any, ClassVar, Literal
 
 from mashumaro.types import SerializableType
 from pyoak.node import ASTNode
